@@ -5,6 +5,7 @@ import (
 	"go/token"
 	"go/types"
 	"os"
+	"sort"
 	"strings"
 
 	"golang.org/x/tools/go/ssa"
@@ -17,6 +18,18 @@ func init() {
 		if v := os.Getenv("DBGDECODE"); v != "" {
 			x := strings.Split(v, "|")
 			debugDecode(p, x[0], x[1], x[2])
+		}
+		if v := os.Getenv("DBGREASONS"); v != "" {
+			for _, one := range strings.Split(v, ",") {
+				x := strings.Split(one, "|")
+				c.rejectReasonsRule(p, "DEBUG.reasons", reasonSpec{pkg: x[0], typ: x[1], name: x[2], why: "debug"})
+			}
+		}
+		if os.Getenv("DBGDEAD") != "" {
+			surveyDeadValues(p)
+		}
+		if os.Getenv("DBGUNUSED") != "" {
+			surveyUnusedParams(p)
 		}
 		if os.Getenv("DBGRMW") != "" {
 			surveyRMW(p)
@@ -879,4 +892,62 @@ func surveyS2AP(p *Program) {
 			}
 		}
 	}
+}
+
+func surveyUnusedParams(p *Program) {
+	n := 0
+	var fs []*ssa.Function
+	for f := range p.AllFuncs {
+		if f.Blocks != nil && isCirclFunc(f) && sourceFunc(f) && f.Parent() == nil && !strings.Contains(funcPkgPath(f), "/internal/test") {
+			fs = append(fs, f)
+		}
+	}
+	sort.Slice(fs, func(i, j int) bool { return fs[i].String() < fs[j].String() })
+	for _, f := range fs {
+		for i, par := range f.Params {
+			if par.Name() == "_" || par.Name() == "" || len(*par.Referrers()) > 0 {
+				continue
+			}
+			if i == 0 && f.Signature.Recv() != nil {
+				continue
+			}
+			n++
+			fmt.Printf("UNUSED %s param %s (%s)\n", fname(f), par.Name(), par.Type())
+		}
+	}
+	fmt.Println("unused params:", n)
+}
+
+func surveyDeadValues(p *Program) {
+	n := 0
+	var fs []*ssa.Function
+	for f := range p.AllFuncs {
+		if f.Blocks != nil && isCirclFunc(f) && sourceFunc(f) && !strings.Contains(funcPkgPath(f), "/internal/test") {
+			fs = append(fs, f)
+		}
+	}
+	sort.Slice(fs, func(i, j int) bool { return fs[i].String() < fs[j].String() })
+	for _, f := range fs {
+		for _, b := range f.Blocks {
+			for _, in := range b.Instrs {
+				v, ok := in.(ssa.Value)
+				if !ok || v.Referrers() == nil || len(*v.Referrers()) > 0 {
+					continue
+				}
+				switch x := in.(type) {
+				case *ssa.BinOp, *ssa.Convert, *ssa.Slice, *ssa.Extract, *ssa.Phi:
+					_ = x
+					n++
+					fmt.Printf("DEAD %s %T %s %s\n", fname(f), in, p.pos(in.Pos()), descVal(v))
+				case *ssa.Call:
+					// value-returning pure call whose result is dropped
+					cal := x.Call.StaticCallee()
+					if cal == nil || x.Call.Signature().Results().Len() == 0 {
+						continue
+					}
+				}
+			}
+		}
+	}
+	fmt.Println("dead values:", n)
 }
